@@ -364,6 +364,10 @@ func runC16(c *Ctx) {
 	R.Require("E3.wiring", 3, "")
 	R.Require("E3.wire", 3, "")
 	R.Require("S.sweep-sorted", 1, "")
+	// the response the terminal reads after resending is the answer to its next report: nothing is written in between
+	R.Rules["S.response-per-report"] = "a completion response (0x9212) is written only in answer to a control frame: every successful chunk step leaves a progress stage for which the read loop does not answer, so the response that follows a resend is the one computed for the next completion report, not a repeat of the previous retransmit list"
+	c.chunkStageStandalone("S.response-per-report")
+	R.Require("S.response-per-report", 1, "")
 	R.Explain = "Structural necessary conditions of the completion report, decided for all inputs: the sweep runs over the sorted slice, starts at 0, emits only non-empty wrap-free ranges; " +
 		"the handler stores the computed list on every path; the reply's flag/count/list agree with that list; the stage is Supplementary exactly when ranges are missing; " +
 		"0x9212 is read and written as (offset,length) u32 pairs at an 8-byte stride with the matching length equation. Exactness of the interval complement over all chunk sets is not decided."
